@@ -141,7 +141,43 @@ def mask_atoms(o):
             return _atom("le", a, b)
         if op == "__ge__":
             return _atom("le", b, a)
+        if op == "__invert__":
+            # ~(A | B) = ~A & ~B;  ~(a > b) is NOT the same selection as a <= b: a NaN coordinate fails every comparison, so it passes every
+            # negated one - kept apart as the atoms 'not-lt' / 'not-le'
+            return _negated_atoms(a)
     raise NotAMask("not a conjunction of comparisons: %r" % (o,))
+
+
+def _negated_atoms(o):
+    if isinstance(o, tuple) and o and o[0] == "raw" and len(o) == 3:
+        return _negated_atoms(o[1])
+    if isinstance(o, tuple) and o and o[0] == "|" and len(o) == 3:
+        return _negated_atoms(o[1]) | _negated_atoms(o[2])
+    if isinstance(o, tuple) and o and o[0] == "op":
+        _, op, a, b = o
+        if op in ("__or__", "__ior__", "__ror__"):
+            return _negated_atoms(a) | _negated_atoms(b)
+        if op in ("__lt__", "__gt__", "__le__", "__ge__"):
+            return frozenset(("not-" + k, p_) for k, p_ in _disjunct_atoms(op, a, b))
+    if isinstance(o, tuple) and o and o[0] in ("<", "<=", ">", ">=") and len(o) == 3:
+        return frozenset(("not-" + k, p_) for k, p_ in _disjunct_atoms({"<": "__lt__", ">": "__gt__", "<=": "__le__", ">=": "__ge__"}[o[0]], o[1], o[2]))
+    raise NotAMask("not a conjunction of comparisons: negation of %r" % (o,))
+
+
+def _is_abs(a):
+    return isinstance(a, tuple) and a and (a[0] == "abs" or (len(a) == 4 and a[0] == "op" and a[1] == "abs"))
+
+
+def _disjunct_atoms(op, a, b):
+    """atoms whose DISJUNCTION is the comparison (|x| > h  =  x > h or -x > h); a comparison with |x| on the small side is a conjunction and is refused"""
+    k = "lt" if op in ("__lt__", "__gt__") else "le"
+    small, big = (a, b) if op in ("__lt__", "__le__") else (b, a)           # small (<|<=) big
+    if _is_abs(small):
+        raise NotAMask("negation of |x| < h (a disjunction of negated atoms)")
+    if _is_abs(big):
+        inner = big[1] if big[0] == "abs" else big[2]
+        return [(k, strip_common_unit(sem(small) - sem(inner))), (k, strip_common_unit(sem(small) + sem(inner)))]
+    return [(k, strip_common_unit(sem(small) - sem(big)))]
 
 
 def expected_atoms(kind, p):
@@ -158,7 +194,8 @@ def expected_atoms(kind, p):
 
 
 def show_atoms(atoms):
-    return " AND ".join(sorted("%r %s 0" % (p, "<" if k == "lt" else "<=") for k, p in atoms))
+    return " AND ".join(sorted(("%r %s 0" % (p, "<" if k == "lt" else "<=")) if not k.startswith("not-") else
+                               ("not(%r %s 0) [true for NaN]" % (p, "<" if k == "not-lt" else "<=")) for k, p in atoms))
 
 
 # ---------------------------------------------------------------------------- scenario
